@@ -34,3 +34,122 @@ theorem save_literal (names : List (List Nat)) (variadic : Option Nat) (fuel : N
   rw [e]
 
 end IgVerif.Exp
+
+namespace IgVerif.Exp
+
+theorem idStart_not_quote (c : Nat) (h : isIdStart c = true) : (c == 34 || (c == 39 && !prevAlnum none)) = false := by
+  unfold isIdStart isAlpha at h
+  have : c ≠ 34 ∧ c ≠ 39 := by
+    simp only [Bool.or_eq_true, Bool.and_eq_true, decide_eq_true_eq, beq_iff_eq] at h
+    omega
+  simp [this.1, this.2]
+
+theorem takeWhile_all_true {α : Type} (p : α → Bool) (l : List α) (h : ∀ x ∈ l, p x = true) :
+    l.takeWhile p = l ∧ l.dropWhile p = [] := by
+  induction l with
+  | nil => simp
+  | cons a t ih =>
+    have ha := h a (List.mem_cons_self ..)
+    have := ih (fun x hx => h x (List.mem_cons_of_mem _ hx))
+    simp [List.takeWhile, List.dropWhile, ha, this]
+
+/-- the body that is just the name of the `i`-th parameter is one parameter node -/
+theorem save_param_only (names : List (List Nat)) (c : Nat) (rest : List Nat) (i : Nat)
+    (hc : isIdStart c = true) (hr : ∀ x ∈ rest, isIdChar x = true)
+    (hva : (c :: rest) ≠ vaArgs) (hi : indexOf names (c :: rest) = some i) :
+    saveExpansion names none (c :: rest) = [.param i false false true] := by
+  unfold saveExpansion
+  have htw := takeWhile_all_true isIdChar rest hr
+  have hne : ((c :: rest) == vaArgs) = false := by simp [hva]
+  simp only [List.length_cons, save, idStart_not_quote c hc, Bool.false_eq_true, if_false, hc, if_true, htw.1, htw.2, hne, hi, flush]
+  simp
+
+theorem rExpandGo_single (i : Nat) (args : List (List Nat)) :
+    rExpandGo none args false [.param i false false true] [] false = if i < args.length then args.getD i [] else [] := by
+  generalize hsub : args.getD i [] = sub
+  have e1 : ((none : Option Nat) == some i) = false := rfl
+  cases sub with
+  | nil =>
+    by_cases hlt : i < args.length
+    · simp only [rExpandGo, e1, Bool.false_and, Bool.false_eq_true, if_false, hlt, if_true, hsub, List.isEmpty_nil, Bool.not_false]
+    · simp only [rExpandGo, e1, Bool.false_and, Bool.false_eq_true, if_false, hlt]
+  | cons a as =>
+    by_cases hlt : i < args.length
+    · simp only [rExpandGo, e1, Bool.false_and, Bool.false_eq_true, if_false, hlt, if_true, hsub, List.isEmpty_cons, addSubst, List.isEmpty_nil, Bool.true_or]
+      rfl
+    · simp only [rExpandGo, e1, Bool.false_and, Bool.false_eq_true, if_false, hlt]
+
+/-- **Parameter substitution.** `#define M(…, p_i, …) p_i`: `M(args)` is the `i`-th argument -/
+theorem expand_param_only (names : List (List Nat)) (c : Nat) (rest : List Nat) (i : Nat) (args : List (List Nat))
+    (hc : isIdStart c = true) (hr : ∀ x ∈ rest, isIdChar x = true)
+    (hva : (c :: rest) ≠ vaArgs) (hi : indexOf names (c :: rest) = some i) :
+    expandOnce names none (c :: rest) args = args.getD i [] := by
+  unfold expandOnce
+  rw [save_param_only names c rest i hc hr hva hi]
+  unfold rExpand
+  simp only
+  rw [rExpandGo_single]
+  split
+  · rfl
+  · rename_i h
+    simp only [List.getD_eq_getElem?_getD]
+    rw [List.getElem?_eq_none (by omega)]; rfl
+
+/-- `# p_i` is one stringified parameter node -/
+theorem save_hash_param (names : List (List Nat)) (c : Nat) (rest : List Nat) (i : Nat)
+    (hc : isIdStart c = true) (hr : ∀ x ∈ rest, isIdChar x = true)
+    (hva : (c :: rest) ≠ vaArgs) (hi : indexOf names (c :: rest) = some i) :
+    saveExpansion names none (35 :: c :: rest) = [.param i true false true] := by
+  unfold saveExpansion
+  have htw := takeWhile_all_true isIdChar rest hr
+  have hne : ((c :: rest) == vaArgs) = false := by simp [hva]
+  have hq : ((35 : Nat) == 34 || ((35 : Nat) == 39 && !prevAlnum none)) = false := by decide
+  have hid : isIdStart 35 = false := by decide
+  have hq2 : (c == 34 || (c == 39 && !prevAlnum (some 35))) = false := by
+    have := idStart_not_quote c hc
+    unfold isIdStart isAlpha at hc
+    have hcc : c ≠ 34 ∧ c ≠ 39 := by
+      simp only [Bool.or_eq_true, Bool.and_eq_true, decide_eq_true_eq, beq_iff_eq] at hc
+      omega
+    simp [hcc.1, hcc.2]
+  have hc35 : ((35 : Nat) == 35) = true := rfl
+  cases rest with
+  | nil =>
+    simp only [List.length_cons, List.length_nil, save, hq, hid, Bool.false_eq_true, if_false, hc35, if_true, flush, List.isEmpty_nil]
+    split
+    · rename_i heq; simp at heq; have h35 := heq.1; subst h35; simp [isIdStart, isAlpha] at hc
+    · simp only [save, hq2, Bool.false_eq_true, if_false, hc, if_true, List.takeWhile_nil, List.dropWhile_nil, hne, hi, flush, List.isEmpty_nil]
+      simp
+  | cons r rs =>
+    simp only [List.length_cons, save, hq, hid, Bool.false_eq_true, if_false, hc35, if_true, flush, List.isEmpty_nil]
+    split
+    · rename_i heq; simp at heq; have h35 := heq.1; subst h35; simp [isIdStart, isAlpha] at hc
+    · simp only [save, hq2, Bool.false_eq_true, if_false, hc, if_true, htw.1, htw.2, hne, hi, flush, List.isEmpty_nil]
+      simp
+
+theorem rExpandGo_single_str (i : Nat) (args : List (List Nat)) :
+    rExpandGo none args false [.param i true false true] [] false = Mac.stringify (args.getD i []) := by
+  have e1 : ((none : Option Nat) == some i) = false := rfl
+  have hne : ∀ l : List Nat, (Mac.stringify l).isEmpty = false := by intro l; simp [Mac.stringify]
+  by_cases hlt : i < args.length
+  · simp only [rExpandGo, e1, Bool.false_and, Bool.false_eq_true, if_false, hlt, if_true, hne, addSubst, List.isEmpty_nil, Bool.true_or]
+    rfl
+  · have hg : args.getD i [] = [] := by
+      simp only [List.getD_eq_getElem?_getD]
+      rw [List.getElem?_eq_none (by omega)]; rfl
+    simp only [rExpandGo, e1, Bool.false_and, Bool.false_eq_true, if_false, hlt, if_true, hne, addSubst, List.isEmpty_nil, Bool.true_or, hg]
+    rfl
+
+/-- **The `#` operator on any parameter.** `#define S(…, p_i, …) #p_i`: `S(args)` is the `i`-th
+argument stringified — the empty string literal if that argument is missing -/
+theorem expand_hash_param (names : List (List Nat)) (c : Nat) (rest : List Nat) (i : Nat) (args : List (List Nat))
+    (hc : isIdStart c = true) (hr : ∀ x ∈ rest, isIdChar x = true)
+    (hva : (c :: rest) ≠ vaArgs) (hi : indexOf names (c :: rest) = some i) :
+    expandOnce names none (35 :: c :: rest) args = Mac.stringify (args.getD i []) := by
+  unfold expandOnce
+  rw [save_hash_param names c rest i hc hr hva hi]
+  unfold rExpand
+  simp only
+  exact rExpandGo_single_str i args
+
+end IgVerif.Exp
